@@ -329,7 +329,7 @@ def gen_yaml_doc(rng):
             kb = [k for k in b if k is not MERGE]
             if kb and rng.random() < 0.6:
                 b[rng.choice(kb)] = Alias("y")
-    return "x: &x %s\ns: &s %s\nv: &v %s\na: %s\nb: %s\n" % (yaml_flow(bx), yaml_flow(bs), yaml_flow(bv), yaml_flow(a), yaml_flow(b))
+    return "x: &x %s\ns: &s %s\nv: &v %s\na: %s\nb: %s\n" % (yaml_flow(bx, bare), yaml_flow(bs, bare), yaml_flow(bv, bare), yaml_flow(a, bare), yaml_flow(b, bare))
 
 
 def contains_special(v):
@@ -643,7 +643,8 @@ def run(chk):
     for (e, doc, _), (a, b), got in zip(roreq, rometa, ro):
         chk.count(("readonly-operand", e, doc), nontrivial=got.startswith(b"OK"))
         want = ok_bytes({"a": a, "b": b})
-        if got.startswith(b"OK") and got != want:
+        res = evalcheck.results_of(got) or []      # a pattern key in the operand path (["*"]) binds $m several times: every output is the document
+        if got.startswith(b"OK") and any(x + b"\n" != want[3:] for x in res):
             violate({"kind": "eval", "expr": e, "doc": {"a": a, "b": b}, "impl": got.decode("utf-8", "replace"), "expect": want.decode("utf-8", "replace")},
                     "evaluating a merge whose operand reads a missing path changed the document: " + e)
     chk.extra["extra_oracles"] = {"number_key_pairs_x16": len(kreq_j), "derived_rhs_cases_x16": len(dreq1), "readonly_operand_probes": len(roreq),
